@@ -15,7 +15,7 @@ NS_URIS = [
 NS_URIS_ASCII = [u for u in NS_URIS if u.isascii()]
 PREFIXES = ["ex", "ex2", "other", "ex_1", "dn", "p", "Q-1", "ex_2", "zz", "dn_1", "xsd", "prov"]
 LOCALS = ["e1", "e2", "a1", "a2", "ag1", "b/1", "x.y", "x-y", "été", "_u", "1st", "r1", "r2", "c1", "pl1"]
-ATTR_LOCALS = ["tag", "tag2", "v", "n_1", "été"]
+ATTR_LOCALS = ["tag", "tag2", "v", "n_1", "été", "time", "endTime", "type", "label"]   # incl. local names PROV uses itself
 PROV_EXTRA = ["type", "label", "value", "location", "role"]
 PROV_UNKNOWN = ["generatedAtTime", "atTime", "note", "Timeline"]   # names in the PROV namespace that PROV-DM does not define as attributes
 
